@@ -137,6 +137,23 @@ def make_world(seed):
         for k, (ts, wf) in enumerate((("+", True), ("-", True), ("+", False), ("-", False))):
             end = contested_intron_locus(w, "V%d_%d" % (ci + 1, k + 1), chrom, pos, ts, wf)
             pos = end + rng.randint(2500, 3500)
+        # unannotated loci whose splice sites are a TIE (one intron canonical on '+', one on '-', optionally a third one canonical on
+        # neither strand): only the tails of the reads decide the strand
+        for k, (ts, mid) in enumerate((("+", False), ("-", False), ("+", True), ("-", True))):
+            ex = [(pos, pos + 300), (pos + 700, pos + 950), (pos + 1400, pos + 1700)]
+            classes = [("+", "canonical"), ("-", "canonical")]
+            if mid:
+                ex = ex[:2] + [(pos + 1400, pos + 1600), (pos + 2000, pos + 2300)]
+                classes = [("+", "canonical"), ("+", "none"), ("-", "canonical")]
+            if k % 2:
+                classes = classes[::-1]
+            g = Gene("TIE%d_%d" % (ci + 1, k + 1), chrom, ts)
+            t = Transcript(g.id + ".h1", g.id, chrom, ts, ex, False, "splice-site-tie")
+            g.hidden.append(t)
+            for intr, (st_, cl_) in zip(t.introns, classes):
+                w.plant_sites(chrom, intr, st_, cl_)
+            w.genes.append(g)
+            pos = ex[-1][1] + rng.randint(2500, 3500)
         # ordinary genes with all site classes, hidden isoforms for novel models
         for gi, sc in enumerate(("canonical", "gc_ag", "at_ac", "opposite", "none", "canonical")):
             g, end = w.make_gene("G%d_%d" % (ci + 1, gi + 1), chrom, pos, rng.choice("+-"), n_exons=rng.randint(4, 6),
@@ -179,7 +196,7 @@ def make_world(seed):
                 w.plant_sites(t.chrom, (ex[-1][1] + 1, right_exon[0] - 1), t.strand, "canonical")
                 w.make_read(t.chrom, ex + [right_exon], truth={"src": t.id, "class": "extra-right-exon-outside-gene"})
         for t in g.hidden:
-            for _ in range(24 if t.kind == "contested-intron-novel" else 7):
+            for _ in range(24 if t.kind == "contested-intron-novel" else 12 if t.kind == "splice-site-tie" else 7):
                 w.read_from_transcript(t, mode="full", jitter=0, polya=True, flag=rng.choice((0, 16)))
     return w, truth_shared
 
@@ -188,7 +205,7 @@ def run(chk, scratch):
     thorough = chk.tier == "thorough"
     chk.rule = ("worlds with introns canonical on '+', on '-', on neither (GT-AG, GC-AG, AT-AC and reverse complements), loci where a '+' and a '-' "
                 "isoform share an intron exactly (both processing orders x three site classes), reads with extra introns outside the gene region, "
-                "hidden isoforms for novel models (also over an intron annotated on both strands, the annotation majority contradicting the reference); --check_canonical with every --report_canonical level and thread counts; every logged "
+                "unannotated loci whose splice sites are a tie between the strands (tails decide), hidden isoforms for novel models (also over an intron annotated on both strands, the annotation majority contradicting the reference); --check_canonical with every --report_canonical level and thread counts; every logged "
                 "check_sites_are_canonical query, every Canonical= TSV value, every Canonical GTF attribute and every novel model strand is judged. "
                 "non-trivial = distinct (intron, strand) pairs queried; of special interest introns queried with both strands in one locus")
     n_seeds = 8 if thorough else 2
@@ -207,7 +224,8 @@ def run(chk, scratch):
         out = os.path.join(d, "out")
         ev = os.path.join(d, "ev")
         r = pipeline.run(d, out, threads=threads, extra=["--check_canonical", "--report_canonical", lvl,
-                                                         "--model_construction_strategy", "sensitive_ont"],
+                                                         "--model_construction_strategy", "sensitive_ont"] +
+                         (["--polya_requirement", "never"] if (seed + len(lvl)) % 2 == 0 else []),
                          mon=["canon"], events=ev)
         return job, d, w, shared, out, ev, r
     both_strands = 0
@@ -310,6 +328,8 @@ def run(chk, scratch):
                     chk.count("novel_model_strands_judged")
                     if h is not None and h.kind == "contested-intron-novel":
                         chk.count("novel_models_over_an_intron_annotated_on_both_strands")
+                    if h is not None and h.kind == "splice-site-tie":
+                        chk.count("novel_models_with_tied_splice_sites")
                     if t["strand"] in ("+", "-") and evidence and t["strand"] not in evidence.values():
                         chk.violation("novel-model-strand-contradicts-all-evidence",
                                       "%s: %s reported on %s, evidence %s" % (desc, tid, t["strand"], evidence), wit)
@@ -326,5 +346,6 @@ def run(chk, scratch):
     chk.inconclusive_if(queries == 0, "canonical monitor never fired")
     chk.inconclusive_if(chk.extra.get("novel_models_over_an_intron_annotated_on_both_strands", 0) == 0,
                         "no novel model over an intron annotated on both strands was produced")
+    chk.inconclusive_if(chk.extra.get("novel_models_with_tied_splice_sites", 0) == 0, "no novel model with tied splice-site evidence was produced")
     chk.inconclusive_if(both_strands == 0, "no intron was queried on both strands within one locus")
     chk.min_nontrivial = 50
